@@ -27,21 +27,24 @@ type ObsNote struct {
 	Pieces [][]int `json:"pieces"` // <<position, a, b, version>>
 }
 type ObsTrace struct {
-	Op       string    `json:"op"` // obsbw
-	P        Params    `json:"p"`
-	Plan     []string  `json:"plan"`
-	NVer     int       `json:"nver"`     // representations the resource went through
-	Reg      string    `json:"reg"`      // ok | err | hung
-	Notes    []ObsNote `json:"notes"`    // callback invocations, in order
-	Final    int       `json:"final"`    // the version of the last notification sent
-	LastSeen int       `json:"lastSeen"` // the version of the last body handed to the observer
-	Cancel   string    `json:"cancel"`   // ok | err | hung
-	Panics   int       `json:"panics"`
-	RcvSrvX  int       `json:"rcvSrvX"`
-	SndSrvX  int       `json:"sndSrvX"`
-	RcvCliX  int       `json:"rcvCliX"`
-	SndCliX  int       `json:"sndCliX"`
-	ObsCliX  int       `json:"obsCliX"`
+	Op        string    `json:"op"` // obsbw
+	P         Params    `json:"p"`
+	Plan      []string  `json:"plan"`
+	NVer      int       `json:"nver"`     // representations the resource went through
+	Reg       string    `json:"reg"`      // ok | err | hung
+	Notes     []ObsNote `json:"notes"`    // callback invocations, in order
+	Final     int       `json:"final"`    // the version of the last notification sent
+	LastSeen  int       `json:"lastSeen"` // the version of the last body handed to the observer
+	Cancel    string    `json:"cancel"`   // ok | err | hung
+	Panics    int       `json:"panics"`
+	RcvSrvX   int       `json:"rcvSrvX"`
+	SndSrvX   int       `json:"sndSrvX"`
+	RcvCliX   int       `json:"rcvCliX"`
+	SndCliX   int       `json:"sndCliX"`
+	ObsCliX   int       `json:"obsCliX"`
+	RcvCliNow int       `json:"rcvCliNow"` // the client's reassembly / send cache sizes when every notification of the plan has been
+	SndCliNow int       `json:"sndCliNow"` // handed over and nothing is in flight - BEFORE any timeout has passed
+	RcvSrvNow int       `json:"rcvSrvNow"`
 }
 
 // plan steps: "notify" (the resource changes and a notification is sent, the driver waits until the observer has it),
@@ -233,6 +236,8 @@ func RunObsBW(p Params, plan []string) ObsTrace {
 		S.Quiesce()
 	}
 	time.Sleep(2 * time.Millisecond)
+	_, tr.RcvCliNow, tr.SndCliNow = C.CC.VerifAux()
+	_, tr.RcvSrvNow, _ = S.CC.VerifAux()
 	cc := make(chan error, 1)
 	go func() { cc <- obs.Cancel(ctx) }()
 	select {
